@@ -1242,6 +1242,7 @@ func (g *gen) formOps4() {
 	g.add("conversion temporaries passed directly as arguments", fmt.Sprintf("x := %s + \"tmp\"\nn := lenOf([]byte(x)) + lenOf([]byte(x + itoa(b)))\nr := upper1(string([]byte(x)[1:])) + upper1(string([]byte(%s)))\nfor i := 0; i < 1+c%%3; i++ {\nn += lenOf([]byte(itoa(i) + r))\n}\n"+clip("r")+"%s = r\nreturn hStr(r) + i64(n)", str("b"), str("c"), str("a")))
 	g.add("append to a slice field of a slice element through index expressions", fmt.Sprintf("ps := []Pair{{a: b, s: %s}, {a: c, s: \"q\"}}\nfor i := 0; i < 2+c%%3; i++ {\nps[i%%2].v = append(ps[i%%2].v, b+i)\nps[(i+1)%%2].s += itoa(i)\n}\nqs := ps\nqs[0].v = append(qs[0].v, c)\nps = append(ps, qs[1])\nr := ps[0].s + ps[2].s\n"+clip("r")+"%s = r\n%s = ps[0].v\nreturn hStr(r) + hSI(ps[0].v) + hSI(qs[1].v) + i64(len(ps))", str("b"), str("a"), si("a")))
 	g.add("field / element address first taken inside a loop (loop-carried pointer)", fmt.Sprintf("nd := &Node{val: b, rank: 0, name: %s}\nr := loopFieldAddr(nd, 2+c%%4)\nps := []Pair{{a: b, s: nd.name}, {a: c}}\nr += loopElemAddr(ps, 3+b%%3)\nx := &Node{val: r, name: itoa(c)}\nreturn hN(nd) + hN(x) + i64(r) + i64(ps[0].a)", str("b")))
+	g.add("decoding strings that end in a truncated multi-byte sequence", fmt.Sprintf("x := []byte(%s + \"世😀\")\nt := string(x[:len(x)-1-c%%3])\nn := 0\nfor i, r := range t {\nn += int(r) + i\n}\nrs := []rune(t)\nu := string(rs)\nfor _, r := range u[:len(u)-b%%2] {\nn += int(r)\n}\nw := t[len(t)-1-c%%2:] + \"\"\nfor _, r := range w {\nn += int(r)\n}\n"+clip("u")+"%s = u\nreturn i64(n)*7 + i64(len(rs)) + hStr(u)", str("b"), str("a")))
 	g.add("string to runes and back", fmt.Sprintf("rs := []rune(%s + \"世a\")\nfor i := range rs {\nif i%%2 == c%%2 {\nrs[i] = rune('b' + (b+i)%%20)\n}\n}\nu := string(rs[1:]) + string(rs[0]) + string(rune(0x4e16+b%%8))\n"+clip("u")+"%s = u\nreturn hStr(u) + i64(len(rs))", str("b"), str("a")))
 	g.add("local array of strings copied by value", fmt.Sprintf("arr: [3]string\narr[b%%3] = %s\narr[c%%3] = %s + \"k\"\nt := arr\nt[0] = t[1] + t[2]\nr := arr[0] + \"|\" + t[0]\n"+clip("r")+"%s = r\nreturn hStr(r)", str("b"), str("c"), str("a")))
 	g.add("slice of slices of strings, inner append", fmt.Sprintf("rows := [][]string{}\nfor i := 0; i < 1+c%%3; i++ {\nrows = append(rows, []string{%s})\nrows[i] = append(rows[i], itoa(i+b))\nrows[0] = append(rows[0], rows[i][0])\n}\nr := \"\"\nfor _, row := range rows {\nfor _, x := range row {\nif len(r) < 120 {\nr += x\n}\n}\n}\n%s = r\nreturn hStr(r) + i64(len(rows[0]))", str("b"), str("a")))
